@@ -234,6 +234,59 @@ Proof.
   rewrite <- (app_nil_r (enc m)). rewrite Hdec. reflexivity.
 Qed.
 
+(** ** framing *)
+Lemma frame_roundtrip p rest : lenN p < 4294967296 -> unframe (frame p ++ rest) = Some (p, rest).
+Proof.
+  intros H. unfold unframe, frame. rewrite <- app_assoc.
+  rewrite rt_u32 by (apply N.ltb_lt; exact H). cbn [bind]. apply take_app. unfold lenN. lia.
+Qed.
+
+Lemma from_vec_size {M} maxsz (table : list (entry M)) p m :
+  from_vec maxsz table p = Some m -> 2 <= lenN p /\ lenN p <= maxsz.
+Proof.
+  unfold from_vec. destruct (N.ltb_spec (lenN p) 2); [discriminate|].
+  destruct (N.ltb_spec maxsz (lenN p)); [discriminate|]. intros _. lia.
+Qed.
+
+(** whatever from_vec makes of a payload, read makes of its frame, leaving the rest *)
+Theorem read_frame {M} maxsz (table : list (entry M)) p m rest :
+  maxsz < 4294967296 -> from_vec maxsz table p = Some m ->
+  read maxsz table (frame p ++ rest) = Some (m, rest).
+Proof.
+  intros Hm H. destruct (from_vec_size _ _ _ _ H) as [H2 Hs]. unfold read, frame.
+  rewrite <- app_assoc. rewrite rt_u32 by (apply N.ltb_lt; lia). cbn [bind].
+  destruct (N.ltb_spec (lenN p) 2); [lia|]. destruct (N.ltb_spec maxsz (lenN p)); [lia|].
+  rewrite take_app by (unfold lenN; lia). cbn [bind]. rewrite H. reflexivity.
+Qed.
+
+Theorem read_stream_frames {M} maxsz (table : list (entry M)) (enc : M -> bytes) :
+  maxsz < 4294967296 ->
+  forall ms rest, (forall m, In m ms -> from_vec maxsz table (enc m) = Some (Known m)) ->
+    read_stream maxsz table (length ms) (concat (map (fun m => frame (enc m)) ms) ++ rest)
+    = Some (map Known ms, rest).
+Proof.
+  intros Hm. induction ms as [|m ms IH]; intros rest H; [reflexivity|].
+  cbn [map concat length read_stream]. rewrite <- app_assoc.
+  rewrite (read_frame maxsz table (enc m) (Known m) _ Hm (H m (or_introl eq_refl))).
+  rewrite IH by (intros m' Hin; apply H; right; exact Hin). reflexivity.
+Qed.
+
+Theorem read_typed_frame {A} maxsz id (enc : A -> bytes) (dec : dec_t A) x rest :
+  maxsz < 4294967296 -> (forall r, dec (enc x ++ r) = Some (x, r)) -> fits 2 id = true ->
+  lenN (enc_u16 id ++ enc x) <= maxsz ->
+  read_typed maxsz id dec (frame (enc_u16 id ++ enc x) ++ rest) = Some (x, rest).
+Proof.
+  intros Hm Hrt Hid Hs. unfold read_typed, frame. rewrite <- app_assoc.
+  assert (H2 : 2 <= lenN (enc_u16 id ++ enc x)).
+  { rewrite lenN_app. unfold enc_u16. rewrite lenN_be. lia. }
+  rewrite rt_u32 by (apply N.ltb_lt; lia). cbn [bind].
+  destruct (N.ltb_spec (lenN (enc_u16 id ++ enc x)) 2); [lia|].
+  destruct (N.ltb_spec maxsz (lenN (enc_u16 id ++ enc x))); [lia|].
+  rewrite take_app by (unfold lenN; lia). cbn [bind].
+  rewrite rt_u16 by exact Hid. cbn [bind]. rewrite N.eqb_refl.
+  rewrite <- (app_nil_r (enc x)). rewrite (Hrt []). reflexivity.
+Qed.
+
 (** The converse direction of the obligation, as a general fact: a message whose type id also
     labels an earlier arm is handed to that arm's decoder. *)
 Lemma lookup_first {M} (a : entry M) t ty : e_id a = ty -> lookup (a :: t) ty = Some a.
